@@ -558,9 +558,12 @@ def _sift_with_noise(X, noise_scaling=None, noise=None, noise_mode='single',
         return imf
     elif noise_mode == 'flip':
         ensX = X.copy() - noise
-        imf += sift(ensX, sift_thresh=sift_thresh, max_imfs=max_imfs,
+        imf2 = sift(ensX, sift_thresh=sift_thresh, max_imfs=max_imfs,
                     imf_opts=imf_opts, envelope_opts=envelope_opts, extrema_opts=extrema_opts)
-        return imf / 2
+        # The two sifts can stop at different numbers of IMFs - average the
+        # components which both contain
+        nimfs = min(imf.shape[1], imf2.shape[1])
+        return (imf[:, :nimfs] + imf2[:, :nimfs]) / 2
 
 
 # Implementation
